@@ -14,7 +14,8 @@ from typing import Dict, List, Optional, Set, Tuple
 
 from ..core import AnalysisError, Loc, Report, Source, norm
 from ..handlers import FnRef, HandlerFacts, closure, concrete_handlers, implementations, stores
-from ..pyfront import ClassInfo, Program, body_without_docstring, param_names, self_attr
+from ..pyfront import ClassInfo, Program, const_value, body_without_docstring, param_names, self_attr
+from ..resolve import Resolver
 from ..selftest import Edit
 
 ID = "C04"
@@ -67,13 +68,31 @@ class Origins:
                         out |= self.of_expr(a.value, fn, depth + 1, seen2)
                     if isinstance(a, ast.AugAssign) and isinstance(a.target, ast.Name) and a.target.id == n.id:
                         out |= self.of_expr(a.value, fn, depth + 1, seen2)
+                    if isinstance(a, (ast.For, ast.comprehension)) and any(isinstance(t, ast.Name) and t.id == n.id for t in ast.walk(a.target)):
+                        # a loop / comprehension variable takes the origins of what is iterated
+                        out |= self.of_expr(a.iter, fn, depth + 1, seen2)
                     if isinstance(a, ast.Assign) and isinstance(a.targets[0], ast.Tuple):
-                        for t in a.targets[0].elts:
+                        for i, t in enumerate(a.targets[0].elts):
                             if isinstance(t, ast.Name) and t.id == n.id:
-                                out |= self.of_expr(a.value, fn, depth + 1, seen2)
+                                out |= self.of_component(a.value, i, len(a.targets[0].elts), fn, depth + 1, seen2)
             if self_attr(n) and isinstance(n.ctx, ast.Load):
                 out |= self.of_attr(self_attr(n), depth + 1)
         return out
+
+    def of_component(self, value: ast.AST, i: int, n: int, fn: ast.FunctionDef, depth: int, seen: Set[str]) -> Set[str]:
+        """origins of component i of an n-tuple value: position-aware through tuple displays and tuple-returning helpers"""
+        if isinstance(value, ast.Tuple) and len(value.elts) == n:
+            return self.of_expr(value.elts[i], fn, depth, seen)
+        if isinstance(value, ast.Call) and isinstance(value.func, ast.Attribute) and isinstance(value.func.value, ast.Name) \
+                and value.func.value.id == "self" and value.func.attr in self.methods:
+            owner, m = self.methods[value.func.attr]
+            rets = [x for x in ast.walk(m) if isinstance(x, ast.Return) and x.value is not None]
+            if rets and all(isinstance(r.value, ast.Tuple) and len(r.value.elts) == n for r in rets):
+                out: Set[str] = set()
+                for r in rets:
+                    out |= self.of_expr(r.value.elts[i], m, depth + 1, set())
+                return out
+        return self.of_expr(value, fn, depth, seen)
 
     def of_attr(self, attr: str, depth: int = 0) -> Set[str]:
         if attr in self.proposal_attrs:
@@ -101,10 +120,23 @@ class Site:
 
 def find_sites(ref: FnRef) -> List[Site]:
     out = []
+    R = Resolver(ref.fn)
     for n in ast.walk(ref.fn):
-        if not (isinstance(n, ast.If) and isinstance(n.test, ast.Compare) and len(n.test.ops) == 1):
+        test = n.test if isinstance(n, ast.If) else None
+        # a test bound to a local first (`rejected = rate <= draw; if rejected:` / `if not rejected:`) is the same test
+        negated = False
+        if isinstance(test, ast.UnaryOp) and isinstance(test.op, ast.Not):
+            test, negated = test.operand, True
+        if isinstance(test, ast.Name):
+            test = R.res(test)
+        if isinstance(test, ast.UnaryOp) and isinstance(test.op, ast.Not):
+            test, negated = test.operand, not negated
+        if not (isinstance(test, ast.Compare) and len(test.ops) == 1):
             continue
-        l, r, op = n.test.left, n.test.comparators[0], n.test.ops[0]
+        # the draw may have been bound to a local (`threshold = uniform(0, B)`): resolve single-assignment locals
+        l, r, op = R.res(test.left), R.res(test.comparators[0]), test.ops[0]
+        if negated:
+            op = {ast.Lt: ast.GtE, ast.LtE: ast.Gt, ast.Gt: ast.LtE, ast.GtE: ast.Lt}.get(type(op), type(op))()
         ul, ur = _uniform_call(l), _uniform_call(r)
         if ul and not ur:
             # U*B op R : accept iff U*B < R
@@ -310,8 +342,9 @@ def analyse(src: Source) -> List[Report]:
             pos = a.posonlyargs + a.args
             defs = [None] * (len(pos) - len(a.defaults)) + list(a.defaults)
             for p_, d_ in zip(pos, defs):
-                if p_.arg == pname and isinstance(d_, ast.Constant):
-                    return float(d_.value)
+                v_ = const_value(prog, r[0], d_) if p_.arg == pname else None
+                if isinstance(v_, (int, float)) and not isinstance(v_, bool):
+                    return float(v_)
         return None
     bdef, tdef = default_of(bcls, "prefactor"), default_of(tcls, "prefactor")
     if bdef is None or tdef is None:
